@@ -1,15 +1,29 @@
 /* C02 - conventional files parse to exactly the sections, keys and values written.
  * Space: all files of <= N lines (--p0) over the conventional line alphabet of convgen.h with <= D decorations
  * (--p1), for each of the 7 delimiter sets x 3 comment sets. --p2 = 1: rich token sets.
+ * --p3 = 1: block family instead - files of <= --p0 blocks, each block an optional header out of {A, AB, A B} (so sections are
+ * re-opened after other sections that carry keys, and names are prefixes of one another) followed by one or two entries.
  * Oracle: expected parse by construction (fold over the generated lines). */
 #include "convgen.h"
 
 static int Nmax = 3, Dmax = 1;
 static char path[512];
 
+static int blocks;
 static void gen(void)
 {
   cg_set_cfg(mc_tag);
+  if (blocks) {
+    int nb = 1 + mc_choose(Nmax), n = 0;
+    for (int b = 0; b < nb; b++) {
+      int h = mc_choose(b == 0 ? 4 : 3);            /* the first block may be group-less */
+      if (h < 3) cg_make_header(n++, cg_heads[h]);
+      int ne = 1 + mc_choose(2);
+      for (int e = 0; e < ne; e++) { int k = mc_choose(2); cg_make_entry(n++, k ? "a.b-c" : "k", b % 2 ? "w" : "v"); }
+    }
+    cg_n = n; cg_final_nl = 1;
+    return;
+  }
   int n = mc_choose(Nmax + 1);
   cg_gen_file(n);
 }
@@ -27,7 +41,7 @@ static void exec(void)
   mc_log("%s\nexpected: %s\n", sig.s, mp.s);
   mc_write_file(path, f.s, f.len);
   econf_file *kf = NULL;
-  econf_err rc = econf_readFile(&kf, path, cg.D, cg.C);
+  econf_err rc = econf_readFile(&kf, path, cg.D, cg.Carg);
   mc_st->libcalls++;
   if (rc != ECONF_SUCCESS || !kf) {
     mc_fail(sig.s, "reading a conventional file failed with %d (%s): %s", (int)rc, econf_errString(rc), sig.s);
@@ -67,12 +81,14 @@ int main(int argc, char **argv)
   if (mc_opt.param[0]) Nmax = (int)mc_opt.param[0];
   Dmax = (int)mc_opt.param[1];
   cg_opt_rich = (int)mc_opt.param[2];
+  blocks = (int)mc_opt.param[3];
+  if (blocks && Nmax * 3 > CG_MAXLINES) mc_die("too many blocks");
   if (Nmax > CG_MAXLINES) mc_die("N too large");
   snprintf(path, sizeof path, "%s/f.conf", mc_work);
   if (mc_opt.case_id) return mc_replay(gen, exec, mc_opt.case_id);
   for (int b = 0; b <= Dmax; b++) {
     int complete = 1;
-    for (int cfgi = 0; cfgi < CG_NCFG && complete; cfgi++) {
+    for (int cfgi = 0; cfgi < (blocks ? CG_NCFG_WITH_DEFAULT_COMMENT : CG_NCFG) && complete; cfgi++) {
       mc_tag = cfgi;
       complete = mc_explore(gen, exec, b, 1);
     }
